@@ -48,16 +48,18 @@ PROPS = {
              "UpdateLenInHeader, ResetSet} applied in lockstep to four set objects (one per add path + one mixed, long-lived, reused through "
              "ResetSet across the whole batch) and to a fresh set replaying the operations since the last reset; after EVERY operation: "
              "reported length == 4 + sum(record lengths) == serialised bytes - 16, record buffer == reported length == reference encoding, the "
-             "4-byte set header == (id written by PrepareSet, length as of the last UpdateLenInHeader; zero after a reset), "
-             "CreateIPFIXMsg output == refipfix encoding byte for byte. Non-trivial = contains a reset followed by adds, or >= 2 add paths; "
+             "4-byte set header == the fresh replay set's (id written by PrepareSet; length field current or as of the last "
+             "UpdateLenInHeader), CreateIPFIXMsg output == refipfix encoding (set length field: as in the header or the true length) and "
+             "identical for all add paths. Non-trivial = contains a reset followed by adds, or >= 2 add paths; "
              "distinct by hash of the operations with their values.",
              COMMON_ASSUME, "runtime monitor: lockstep differential of the three add paths + fresh replay + reference length/byte model after every op"),
     "C02": P(False, (8, 16), 16, (900, 3600), 4000, 2000, "exploration",
              "one evaluation = one message captured at a raw TCP or UDP peer socket (IPv4 and IPv6 loopback) from a real exporting process; "
              "it must parse strictly with refipfix (version 10, header length == bytes captured, exactly one set covering the rest, set id 2 / "
              "template id), template records must match the elements sent (id, enterprise bit+number, length), data sets must split under the "
-             "template previously parsed FROM THE WIRE into exactly the values handed to SendSet, and the whole message must equal refipfix's own "
-             "encoding byte for byte. Templates of 1..40 elements from the IANA/reverse/Antrea registries plus a user-registered enterprise; "
+             "template previously parsed FROM THE WIRE into exactly the values handed to SendSet, and the set content must equal refipfix's own "
+             "encoding byte for byte (RFC 7011 3.3.2 set padding - zero octets shorter than the shortest record - is not a difference; TCP streams "
+             "are cut at the messages' own length fields, and bytes in excess of them are seen by the next parse). Templates of 1..40 elements from the IANA/reverse/Antrea registries plus a user-registered enterprise; "
              "1..fit records; one TCP case in six aims at the 65535-byte limit (messages of 65500..65560 bytes: above the limit SendSet must refuse, and "
              "whatever reaches the wire must still be one well-formed message); one case in 400 is a UDP session with the 1 s template refresh "
              "whose templates mix forward IANA elements with their reverse (29305) twins sharing element ids: every refresh datagram must be "
@@ -70,7 +72,7 @@ PROPS = {
              "history of 20..80 successful template/data SendSet calls with 1..400 records; one third of the sessions start 1..600 records "
              "below 2^32 (VerifSetSeqNumber hook) and cross the wrap. Every captured message: seq == running data-record count incl. this "
              "message mod 2^32 (templates do not advance it), configured observation domain, export time inside the wall-clock-second "
-             "interval sampled around the call, bytes reported == bytes captured == one message; nothing else at the peer at the end. "
+             "interval sampled around the call, what arrives per call == one message; nothing else at the peer at the end. "
              "One session in 16 is a UDP session with the 1 s template refresh running concurrently with 2.3 s of application sends (half of them "
              "starting just below 2^32): the rule is checked in capture order on every datagram, whoever sent it. "
              "Non-trivial = a template between data messages, or the wrap crossed; distinct by hash of the (kind, record count) list.",
@@ -80,7 +82,7 @@ PROPS = {
              "one evaluation = one history of 12..42 sends on a real exporting process against a raw peer (TCP 4/5, UDP 1/5), mixing valid sends "
              "with unknown template ids, wrong field counts (one record of several), an undefined set type, messages of every length "
              "65519..65540, and ill-typed values (IPv6 in ipv4Address, wrong-length IPs, MAC shorter/longer than 6, fixed octetArray of the "
-             "wrong length) in one field of one record. Must-refuse sends must return an error and 0 bytes; after each one a marker message is "
+             "wrong length) in one field of one record. Must-refuse sends must return an error; after each one a marker message is "
              "sent and must be the next thing the peer sees; the same refused set object is re-sent 0..2 times (an application retry) and must be "
              "refused again; accepted messages must equal refipfix's encoding of the supplied values. "
              "Non-trivial = a refused send followed by an accepted one; distinct by hash of the send classes.",
@@ -109,7 +111,7 @@ PROPS = {
              "B-shaped, or random bodies) messages over several (domain, id) keys, presented to one collecting process (tcp flavour, and udp "
              "flavour with a frozen injected clock). After every message: accepted iff the model has a valid template in force and the body "
              "splits under it; delivered records == refipfix's reading under the model's layout; collector's template table (hook) == "
-             "model's keys and element lists. Exhaustive: all 15^4 (quick) / 15^5 (thorough) words over 3 keys; plus random histories of "
+             "model's keys and element lists (a zero-field or reduced-size template may be held or not). Exhaustive: all 15^4 (quick) / 15^5 (thorough) words over 3 keys; plus random histories of "
              "length 6..40 over 2 domains x 4 ids in all 3 modes, with 6 layouts including a pair of the same shape that differs only in the "
              "enterprise number, and (lenient modes) the same unknown element announced with a different length in every layout; delivered "
              "field names must be those of the template in force. Non-trivial = a data set after >= 2 template-affecting ops on related keys.",
@@ -130,8 +132,9 @@ PROPS = {
              "one evaluation = one schedule over {T template/refresh/replacement, B bad template, D data, Adv(TTL/2|TTL|...), P1(j) start "
              "fired timer callback j up to its clock read, P2(j) finish it, C(j,op) finish it CONCURRENTLY with op} on a udp collecting process "
              "running on an injected virtual clock with time.AfterFunc semantics (fired-but-pending callbacks included). After every "
-             "operation: table == deterministic lifetime model (no early drop: a callback deletes only if expiry <= the time it read; no "
-             "template outlives a completed callback that read a time >= its expiry), stored expiry == last refresh + TTL, every stored "
+             "operation: table against a three-valued lifetime model (before last refresh + TTL the template MUST be stored and data accepted; once "
+             "the callback fired for that very deadline has completed, or after an invalidation, it MUST be gone and data refused; in between "
+             "either is accepted and the model follows the observation), stored expiry == last refresh + TTL, every stored "
              "template has exactly one timer that is armed at its expiry or has a callback in flight, no armed timer without a template; "
              "every schedule ends with a drain after which the table and the timer registry must be empty. Exhaustive: all words to the "
              "stated depth (no-op symbols pruned); random: length <= 40 over 3 keys. Non-trivial = a refresh/replacement/invalidation ran "
@@ -275,8 +278,8 @@ PROPS = {
              "text}, POST /reset, invalid requests (negative / non-numeric / fractional / padded / overflowing count, unknown format, wrong "
              "method on both endpoints)} executed by an in-package driver (go test -overlay) against addIPFIXMessage and the two handlers, "
              "recorded as an event log and checked offline: every valid query must return exactly the last min(n, stored) entries of the "
-             "sliding-window model (cap 4096) in arrival order - identified through the unique sequence number each message carries and its "
-             "entry prints -, in the right format; every invalid request must get a 4xx; reset must empty the store; every returned entry "
+             "sliding-window model (cap 4096) in arrival order - data messages identified through the unique id carried in one of their values, "
+             "template messages through a header line if the rendering has one and otherwise by position -, in the right format; every invalid request must get a 4xx; reset must empty the store; every returned entry "
              "must show every field of every record by element name and value. One history in 13 makes 17000-19000 arrivals (cap exceeded "
              "4x); one in 13 is concurrent (writer + 4 readers + resetter under the race detector: contiguous ascending id ranges, no more "
              "than count, nothing from the future). Non-trivial = exceeds the cap or has a reset between queries; distinct by history.",
